@@ -18,6 +18,7 @@ class FnReport:
         self.unsupported: str | None = None
         self.error: str | None = None
         self.paths = 0
+        self.called = set()
 
 
 def entry_state(ex: Exec, c: Contract, fnnode) -> State:
@@ -129,6 +130,7 @@ def verify_function(reg: Registry, c: Contract) -> FnReport:
                                 ex.oblige('post.exc.%s.unchanged.%s@%s' % (x.exc, n, x.site), stx,
                                           stx.h.arr[n] == h0.arr[n], 'post.exc')
         rep.obligations = ex.obligations
+        rep.called = set(ex.called)
     except Unsupported as e:
         rep.unsupported = str(e)
     except RecursionError:
